@@ -68,7 +68,7 @@ def ops_of(case):
 
 # ---- trace parsing ----
 class Rec:
-    __slots__ = ("result", "len", "wlen", "readable", "allocs")
+    __slots__ = ("result", "len", "wlen", "readable", "allocs", "mem")
 
 
 def parse_trace(tr):
@@ -91,6 +91,14 @@ def parse_trace(tr):
         else:
             r.readable = None
             i += 1
+        r.mem = None
+        if i < n and tr[i] == -5:
+            if i + 1 < n and tr[i + 1] >= 0:
+                k = tr[i + 1]
+                r.mem = tr[i + 2:i + 2 + k]
+                i += 2 + k
+            else:
+                i += 2
         r.allocs = None
         if i + 1 < n and tr[i] == -4:
             r.allocs = tr[i + 1]
@@ -389,13 +397,72 @@ class ApiProp(Prop):
         # (b) random histories
         nrand = 4000 if tier == "quick" else 120000
         for _ in range(nrand):
-            size = rng.choice(SIZES_RANDOM[:9]) if rng.random() < 0.8 else rng.choice(SIZES_RANDOM)
+            size = rng.choice(SIZES_RANDOM[:9]) if rng.random() < 0.9 else rng.choice(SIZES_RANDOM)
             cases.append(random_history(rng, size, 12 if tier == "quick" else 40))
         cases += self.extra_cases(tier, rng)
         return cases
 
     def extra_cases(self, tier, rng):
         return []
+
+    # ---- step-wise correspondence: the model is restarted from the implementation's observed state
+    # (mem(), len(), writable().len() determine mem, read_index, write_index) before every op, so a defect in
+    # one function shows at the steps that exercise it and nowhere else ----
+    relevant_ops = None          # None = every op; else a set of op names whose steps are compared
+
+    def step_view(self, op, rec, before):
+        """what is compared for one step (overridden per property)"""
+        return (tuple(rec.result), rec.len, rec.wlen, tuple(rec.readable) if rec.readable is not None else None)
+
+    def correspond(self, cases, impl_traces, prof, model_fn):
+        lines, index, out = [], [], []
+        bad = set()
+        for ci, c in enumerate(cases):
+            init, recs = parse_trace(impl_traces[ci])
+            ops = ops_of(c)
+            if init is None or recs is None or len(recs) != len(ops):
+                out.append((ci, "implementation trace is malformed"))
+                continue
+            size = c.meta["size"]
+            # the constructor itself: compare the initial observation with the model's (whole-case run, zero ops)
+            prev = init
+            for k, (op, r) in enumerate(zip(ops, recs)):
+                if (self.relevant_ops is None or op[0] in self.relevant_ops) and op[0] != "Copy":
+                    if prev.mem is None or prev.len is None or prev.wlen is None or prev.len < 0 or prev.wlen < 0 or len(prev.mem) != size:
+                        pass   # state not observable (a query panicked): the checker reports that
+                    else:
+                        wi = size - prev.wlen
+                        ri = wi - prev.len
+                        if 0 <= ri <= wi <= size:
+                            lines.append(" ".join(map(str, [8, size, ri, wi] + list(prev.mem) + enc_op(op))))
+                            index.append((ci, k, op, r, prev))
+                prev = r
+        # constructors: run the model on the case prefix without ops
+        ctor_lines = [" ".join(map(str, [2, c.meta["size"], c.meta["ctor"]] + (c.meta["mem"] if c.meta["ctor"] in (1, 2) else []))) for c in cases]
+        uniq = sorted(set(ctor_lines))
+        cm = dict(zip(uniq, model_fn(uniq)))
+        for ci, c in enumerate(cases):
+            init, _ = parse_trace(impl_traces[ci])
+            minit, _ = parse_trace([int(x) for x in cm[ctor_lines[ci]].split()])
+            if init is not None and minit is not None and (init.len, init.wlen, init.readable) != (minit.len, minit.wlen, minit.readable):
+                out.append((ci, "constructor: implementation starts at %r, model at %r" % ((init.len, init.wlen, init.readable), (minit.len, minit.wlen, minit.readable))))
+        uniq = sorted(set(lines))
+        mm = dict(zip(uniq, model_fn(uniq)))
+        for ln, (ci, k, op, r, prev) in zip(lines, index):
+            if ci in bad:
+                continue
+            mt = [int(x) for x in mm[ln].split()]
+            # model output: -2 result -3 len wlen readable -5 mem
+            _, mrecs = parse_trace([-3, 0, 0, 0] + mt)
+            if not mrecs:
+                out.append((ci, "step %d %s: model produced no record" % (k, fmt(op))))
+                bad.add(ci)
+                continue
+            if self.step_view(op, r, prev) != self.step_view(op, mrecs[0], prev):
+                out.append((ci, "step %d %s from state (len=%d, writable=%d): implementation %r, model %r"
+                            % (k, fmt(op), prev.len, prev.wlen, self.step_view(op, r, prev), self.step_view(op, mrecs[0], prev))))
+                bad.add(ci)
+        return out
 
     # comparison of model and implementation: results (minus Mem unless with_mem) + post-state
     def project(self, case, trace, prof):
@@ -538,7 +605,8 @@ class C01(ApiProp):
                     added = post[len(q):]
                     if n in ("WriteBytes", "WriteStr", "IoWrite"):
                         okd = res[0] == 0
-                        want = list(op[1]) if okd else []
+                        # accepted bytes as told by the result: Ok(n) accepts the first n bytes (write_str: all)
+                        want = (list(op[1]) if n == "WriteStr" else list(op[1])[:res[1]]) if okd else []
                         if added != want:
                             return "op %d %s (result %r) appended %r, accepted bytes are %r" % (i, fmt(op), res, added, want)
                     elif n == "CopyOnce":
@@ -573,15 +641,9 @@ class C03(ApiProp):
     coq_targets = ["Props/C03.vo"]
     nontrivial_rule = C01.nontrivial_rule + "; observables: writable().len(), len(), Ok/Err of the write paths"
 
-    def project(self, case, trace, prof):
-        init, recs = parse_trace(trace)
-        if recs is None or init is None:
-            return ("unparsable", tuple(trace))
-        out = [(init.len, init.wlen)]
-        for op, r in zip(ops_of(case), recs):
-            res = tuple(r.result[:1]) if op[0] in ("WriteBytes", "WriteStr", "IoWrite") else ()
-            out.append((res, r.len, r.wlen))
-        return tuple(out)
+    def step_view(self, op, rec, before):
+        res = tuple(rec.result[:1]) if op[0] in ("WriteBytes", "WriteStr", "IoWrite", "CopyOnce") else (rec.result == PAN,)
+        return (res, rec.len, rec.wlen)
 
     def check(self, case, trace, prof):
         size = case.meta["size"]
@@ -645,6 +707,11 @@ class C04(ApiProp):
     level_text = 'Coq theorems c04_step (panics iff documented, for every op, argument up to usize::MAX and both overflow profiles; after a panic the invariant holds and the buffer is unchanged as specified), c04_read_bytes / c04_read_byte / c04_wrote (function-level iff, never a silent success), c04_text_no_panic, c04_deframers, and c04_pinned_refuted (the pre-fix bodies violate the contract in release: regression oracle). Tie: every history is run in the dev AND release cargo profiles under catch_unwind, with overflow-class arguments at every read offset.'
     coq_targets = ["Props/C04.vo"]
     nontrivial_rule = C01.nontrivial_rule + "; every history is run in the dev profile (overflow checks on) and the release profile (off)"
+
+    def step_view(self, op, rec, before):
+        pan = bool(rec.result) and rec.result[0] == -1
+        return (pan, (rec.len, rec.wlen, tuple(rec.readable) if rec.readable is not None else None) if pan else None,
+                rec.len is None or rec.len < 0, rec.wlen is None or rec.wlen < 0, rec.readable is None)
 
     def extra_cases(self, tier, rng):
         # overflow-class arguments at every read offset of small buffers
@@ -734,6 +801,16 @@ class C10(ApiProp):
                             cases.append(mk_case(size, 0, [], ops, "deframe-grid"))
         return cases
 
+    relevant_ops = {"Deframe"}
+
+    def step_view(self, op, rec, before):
+        res = tuple(rec.result)
+        payload = None
+        if len(rec.result) == 4 and rec.result[:2] == [0, 1] and rec.mem is not None:
+            lo, hi = rec.result[2], rec.result[3]
+            payload = tuple(rec.mem[lo:hi]) if 0 <= lo <= hi <= len(rec.mem) else "out-of-range"
+        return (res, rec.len, rec.wlen, tuple(rec.readable) if rec.readable is not None else None, payload)
+
     def project(self, case, trace, prof):
         # results, post-states, and for Mem only the bytes inside the range the preceding deframe returned
         init, recs = parse_trace(trace)
@@ -808,6 +885,12 @@ class C11(ApiProp):
     nontrivial_rule = ("API histories whose try_parse closures are scripts over the reading API (nesting depth <= 3, draining "
                        "scripts over-represented) from every reachable small state and random larger ones; "
                        "non-trivial = a TryParse op whose script has at least one read step; distinct = distinct (case, trace)")
+
+    relevant_ops = {"TryParse"}
+
+    def step_view(self, op, rec, before):
+        flag = rec.result[0] if rec.result else None
+        return (flag, rec.len, rec.wlen, tuple(rec.readable) if rec.readable is not None else None)
 
     def extra_cases(self, tier, rng):
         cases = []
